@@ -53,6 +53,19 @@ typedef doublecomplex scalar_t; typedef double real_t;
 #include <string.h>
 #include <stdlib.h>
 
+// not declared in the library's headers
+extern "C" {
+#if defined(PREC_s)
+float slangs(char *, SuperMatrix *);
+#elif defined(PREC_d)
+double dlangs(char *, SuperMatrix *);
+#elif defined(PREC_c)
+float clangs(char *, SuperMatrix *);
+#else
+double zlangs(char *, SuperMatrix *);
+#endif
+}
+
 namespace {
 
 inline scalar_t to_native(cld v) {
@@ -303,6 +316,35 @@ struct Impl : Drv {
         return e;
     }
 
+    long call_gscon(char norm, ld &anorm, ld &rcond) override {
+        SuperMatrix T = A; T.Stype = SLU_NC;   // the route factorizes the stored arrays as a column-compressed matrix
+        char nm[2] = {norm, 0};
+        real_t an = SS(langs)(nm, &T), rc = -1;
+        int_t info = -999;
+        SS(gscon)(nm, &L, &U, an, &rc, &info);
+        anorm = (ld)an; rcond = (ld)rc;
+        return (long)info;
+    }
+    bool call_comprow_to_compcol(bool empty) override {
+        scalar_t *at = nullptr; int_t *ri = nullptr, *cp = nullptr;
+        std::vector<int_t> zptr((size_t)n + 1, 0);
+        int_t nnz = empty ? 0 : (int_t)aval.size();
+        // the stored arrays read as row-compressed: n rows, row pointers colptr, column indices rowind
+        SS(CompRow_to_CompCol)(n, n, nnz, aval.data(), rowind.data(), empty ? zptr.data() : colptr.data(), &at, &ri, &cp);
+        bool ok = cp != nullptr && cp[n] == nnz;
+        if (ok && !empty) {
+            // entry k of "row" r with column index c must appear in column c with row index r
+            std::vector<int_t> cnt((size_t)n, 0);
+            for (int r = 0; ok && r < n; ++r) for (int_t k = colptr[r]; k < colptr[r + 1]; ++k) {
+                int_t c = rowind[k]; int_t pos = cp[c] + cnt[c]++;
+                if (pos >= cp[c + 1] || ri[pos] != r || memcmp(&at[pos], &aval[k], sizeof(scalar_t)) != 0) { ok = false; break; }
+            }
+        }
+        if (at) SUPERLU_FREE(at);
+        if (ri) SUPERLU_FREE(ri);
+        if (cp) SUPERLU_FREE(cp);
+        return ok;
+    }
     long call_trsv(const char *uplo, const char *trans, const char *diag, std::vector<cld> &xv) override {
         std::vector<scalar_t> w(xv.size() ? xv.size() : 1);
         for (size_t i = 0; i < xv.size(); ++i) w[i] = to_native(xv[i]);
